@@ -25,23 +25,35 @@ class FaultAt:
     is demanded of it - but every later call on the same objects must still answer like
     fresh objects do."""
 
-    def __init__(self, k):
+    def __init__(self, k, site=None):
+        """k: ordinal of the line event (inside the package) at which to fail; negative =
+        KeyboardInterrupt.  site = [function, nth]: fail at the nth line executed in that
+        function instead - what a run records when it fires, so that a replay in another
+        process (where one-time initialisation code shifts the global count) fails at the same
+        place."""
         self.kbd = bool(k) and int(k) < 0  # negative ordinal: KeyboardInterrupt instead of MemoryError
         self.k = abs(int(k)) if k else 0
         self.n = 0
         self.fired = False
         self.where = None
+        self.site = (str(site[0]), int(site[1])) if site else None
+        self.per = {}
+        self.nth = 0
         self.prefix = os.path.join(os.path.realpath(boot.repo_root()), "ciderpress") + os.sep
 
     def _local(self, frame, event, arg):
         if event == "line":
             self.n += 1
-            if self.n == self.k and not self.fired:
+            w = "%s:%s" % (frame.f_code.co_filename[len(self.prefix) :], frame.f_code.co_name)
+            c = self.per[w] = self.per.get(w, 0) + 1
+            hit = (self.site is not None and w == self.site[0] and c == self.site[1]) or (self.site is None and self.n == self.k)
+            if hit and not self.fired:
                 self.fired = True
-                self.where = "%s:%s" % (frame.f_code.co_filename[len(self.prefix) :], frame.f_code.co_name)
+                self.where = w
+                self.nth = c
                 if self.kbd:
-                    raise InjectedInterrupt("injected interrupt at line event %d" % self.k)
-                raise InjectedFault("injected failure at line event %d" % self.k)
+                    raise InjectedInterrupt("injected interrupt at %s line %d" % (w, c))
+                raise InjectedFault("injected failure at %s line %d" % (w, c))
         return self._local
 
     def _global(self, frame, event, arg):
@@ -61,6 +73,17 @@ class FaultAt:
         if et is not None and issubclass(et, InjectedInterrupt):
             raise CallInterrupted(str(ev)) from ev
         return False
+
+
+def for_op(op):
+    """injector for a history operation; once it has fired, the operation remembers the site
+    (the history object is what goes into the replay file)"""
+    return FaultAt(op.get("fault"), op.get("fault_site"))
+
+
+def remember(op, inj):
+    if inj.fired and not op.get("fault_site"):
+        op["fault_site"] = [inj.where, inj.nth]
 
 
 def draw_fault(rng, hi=3000):
